@@ -125,6 +125,7 @@ type NetCfg struct {
 	ParallelLinks bool // a recurrent and a non-recurrent link on the same ordered pair (cyclic variant)
 	LongChains    bool // one net in fifteen is a long sparse chain (20-70 neurons, at most six shortcut links)
 	Rename        bool // one net in five gets its node ids permuted (sensors no longer first in the node list)
+	Dense         bool // one DAG in sixty is (almost) fully connected over 14-18 neurons: 10^4 - 10^5 simple paths
 	BigRecurrent  bool // one cyclic net in thirty is large and sparse (100-300 hidden neurons, many self loops)
 }
 
@@ -253,7 +254,36 @@ func drawBigRecurrent(t *rapid.T) NetSpec {
 	return s
 }
 
+// drawDense: an (almost) complete DAG: neuron i is fed by the sensor and by every earlier neuron. The depth search
+// enumerates every simple path (2^n of them), the longest one - through all neurons - is found late.
+func drawDense(t *rapid.T) NetSpec {
+	s := NetSpec{ViaGenome: rapid.Bool().Draw(t, "via genome")}
+	n := rapid.IntRange(14, 18).Draw(t, "dense neurons")
+	s.Nodes = append(s.Nodes, NetNode{Id: 1, Role: roleInput, Act: 17})
+	for i := 0; i < n; i++ {
+		role := roleHidden
+		if i == n-1 {
+			role = roleOutput
+		}
+		s.Nodes = append(s.Nodes, NetNode{Id: 2 + i, Role: role, Act: 4})
+	}
+	drop := rapid.IntRange(0, 3).Draw(t, "dropped links")
+	for i := 0; i < n; i++ {
+		for j := -1; j < i; j++ {
+			if drop > 0 && j >= 0 && j < i-1 && rapid.IntRange(0, 40).Draw(t, "drop") == 0 {
+				drop--
+				continue
+			}
+			s.Links = append(s.Links, NetLink{From: 2 + j, To: 2 + i, W: rapid.Float64Range(-1, 1).Draw(t, "w")})
+		}
+	}
+	return s
+}
+
 func drawNetPlain(t *rapid.T, cfg NetCfg) NetSpec {
+	if cfg.Dense && !cfg.Cyclic && rapid.IntRange(0, 59).Draw(t, "dense") == 17 {
+		return drawDense(t)
+	}
 	if cfg.BigRecurrent && cfg.Cyclic && rapid.IntRange(0, 29).Draw(t, "big recurrent") == 7 {
 		return drawBigRecurrent(t)
 	}
